@@ -37,6 +37,28 @@ static Out read_view(const std::function<DataView()> &get) {
     return o;
 }
 
+struct Outs { bool threw; std::string exc; std::vector<Out> v; };
+static Outs read_views(const std::function<std::vector<DataView>()> &get) {
+    Outs o{false, "", {}};
+    o.exc = vf::guarded([&] {
+        for (DataView v : get()) {
+            Out x{false, v.dataExtent(), {}, ""};
+            x.data.assign(x.extent.nelms(), -777.0);
+            if (!x.data.empty()) v.getData(DataType::Double, x.data.data(), x.extent, NDSize(x.extent.size(), 0));
+            o.v.push_back(x);
+        }
+    });
+    o.threw = !o.exc.empty();
+    return o;
+}
+static bool same(const Outs &a, const Outs &b) {
+    if (a.threw || b.threw) return a.threw == b.threw;
+    if (a.v.size() != b.v.size()) return false;
+    for (size_t i = 0; i < a.v.size(); i++) if (!same(a.v[i], b.v[i])) return false;
+    return true;
+}
+static std::string show(const Outs &o) { if (o.threw) return "throws " + o.exc; std::string s; for (auto &x : o.v) s += "[" + show(x) + "] "; return s; }
+
 struct Dim { int kind; double a, b; std::vector<double> ticks; std::string base; };   // kind 0 sampled(interval a, offset b), 1 range, 2 set (no unit)
 static std::vector<double> coords(const Dim &d, size_t n) {
     std::vector<double> c;
@@ -85,8 +107,10 @@ int main(int argc, char **argv) {
         vf::case_desc(desc);
         // per-axis candidates in dimension units
         std::vector<std::vector<double>> P(rank), E(rank);
+        std::vector<double> q(rank), qe(rank);   // the SECOND position of the multi-tag: a fixed region inside the data
         for (size_t k = 0; k < rank; k++) {
             std::vector<double> c = coords(dims[cfg.d[k]], 5);
+            q[k] = c[1]; qe[k] = c[2] - c[1];
             size_t step = rank == 1 ? 1 : 2;
             for (size_t i = 0; i < 5; i += step) { P[k].push_back(c[i]); if (i + 1 < 5) P[k].push_back((c[i] + c[i + 1]) / 2); }
             P[k].push_back(c[0] - (c[1] - c[0])); P[k].push_back(c[4] + (c[4] - c[3]));
@@ -98,22 +122,26 @@ int main(int argc, char **argv) {
         else { size_t n = 0; for (double p0 : P[0]) for (double e0 : E[0]) for (size_t k1 = 0; k1 < P[1].size(); k1 += 2) for (size_t e1 = 0; e1 < E[1].size(); e1 += 2) { if (thorough || n % 4 == 0) reqs.push_back({{p0, P[1][k1]}, {e0, E[1][e1]}}); n++; } }
         Tag tag = b.createTag("t" + std::to_string(cid), "t", {0.0});
         tag.addReference(a);
-        DataArray pos = b.createDataArray("p" + std::to_string(cid), "t", DataType::Double, rank == 1 ? NDSize({1}) : NDSize({ndsize_t(1), ndsize_t(rank)}));
-        DataArray exa = b.createDataArray("e" + std::to_string(cid), "t", DataType::Double, rank == 1 ? NDSize({1}) : NDSize({ndsize_t(1), ndsize_t(rank)}));
+        DataArray pos = b.createDataArray("p" + std::to_string(cid), "t", DataType::Double, rank == 1 ? NDSize({2}) : NDSize({ndsize_t(2), ndsize_t(rank)}));
+        DataArray exa = b.createDataArray("e" + std::to_string(cid), "t", DataType::Double, rank == 1 ? NDSize({2}) : NDSize({ndsize_t(2), ndsize_t(rank)}));
         MultiTag mt = b.createMultiTag("m" + std::to_string(cid), "t", pos);
         mt.extents(exa);
         mt.addReference(a);
-        NDSize prow = rank == 1 ? NDSize({1}) : NDSize({ndsize_t(1), ndsize_t(rank)}), pzero(prow.size(), 0);
+        NDSize prow = rank == 1 ? NDSize({1}) : NDSize({ndsize_t(1), ndsize_t(rank)}), pzero(prow.size(), 0), prow1 = pzero;
+        prow1[0] = 1;   // offset of the second row
+        std::vector<ndsize_t> both = {1, 0};
         for (auto &rq : reqs) {
             const std::vector<double> &p = rq.first, &e = rq.second;
             for (RangeMatch rm : {RangeMatch::Inclusive, RangeMatch::Exclusive}) {
                 // ---- baseline: request in the dimensions' own units ----
                 tag.position(p); tag.extent(e); tag.units(dimunits.back().empty() && rank == 2 ? std::vector<std::string>{dimunits[0], ""} : dimunits);
                 pos.setData(DataType::Double, p.data(), prow, pzero); exa.setData(DataType::Double, e.data(), prow, pzero);
+                pos.setData(DataType::Double, q.data(), prow, prow1); exa.setData(DataType::Double, qe.data(), prow, prow1);
                 std::vector<std::string> mu = dimunits; for (auto &u : mu) if (u.empty()) u = "none";
                 vf::guarded([&] { mt.units(dimunits.back().empty() && rank == 2 ? std::vector<std::string>{dimunits[0], ""} : dimunits); });
                 Out t0 = read_view([&] { return util::taggedData(tag, a, rm); });
                 Out m0 = read_view([&] { return util::taggedData(mt, 0, a, rm); });
+                Outs ml0 = read_views([&] { return util::taggedData(mt, both, a, rm); });   // positions {1, 0} in ONE call
                 std::vector<double> s0 = p, e0(rank); for (size_t k = 0; k < rank; k++) e0[k] = p[k] + e[k];
                 Out d0 = read_view([&] { return util::dataSlice(a, s0, e0, mu, rm); });
                 vf::count("baseline_retrievals", 3);
@@ -148,6 +176,18 @@ int main(int argc, char **argv) {
                         vf::count("scaled_retrievals");
                         if (!ue.empty()) vf::violation("C18|MultiTag::units|SI unit rejected", ctx + " " + ue);
                         else if (!same(m0, m1)) vf::violation("C18|MultiTag retrieval with scaled units|" + pcls + "|differs from the unscaled request|" + (m1.threw != m0.threw ? (m1.threw ? "throws " + m1.exc : "returns data") : "other elements"), ctx + ": unscaled " + show(m0) + " scaled " + show(m1));
+                        // MultiTag, two positions in one call: the second position is re-expressed as well (only if that is exact too)
+                        {
+                            double qt = q[axis] / fct, qet = qe[axis] / fct;
+                            if (ue.empty() && qt * fct == q[axis] && (qt + qet) * fct == q[axis] + qe[axis] && std::isfinite(qt) && std::isfinite(qet)) {
+                                std::vector<double> q2 = q, qe2 = qe; q2[axis] = qt; qe2[axis] = qet;
+                                pos.setData(DataType::Double, q2.data(), prow, prow1); exa.setData(DataType::Double, qe2.data(), prow, prow1);
+                                Outs ml1 = read_views([&] { return util::taggedData(mt, both, a, rm); });
+                                vf::count("scaled_retrievals");
+                                if (!same(ml0, ml1)) vf::violation("C18|MultiTag retrieval of several positions with scaled units|" + pcls + "|differs from the unscaled request|" + (ml1.threw != ml0.threw ? (ml1.threw ? "throws " + ml1.exc : "returns data") : "other elements"), ctx + ": unscaled " + show(ml0) + " scaled " + show(ml1));
+                                pos.setData(DataType::Double, q.data(), prow, prow1); exa.setData(DataType::Double, qe.data(), prow, prow1);
+                            } else vf::count("cases_skipped_not_exact");
+                        }
                         // dataSlice: end = start + extent must be exact as well
                         double st = pt, en = (p[axis] + e[axis]) / fct;
                         if (st * fct == p[axis] && en * fct == p[axis] + e[axis]) {
